@@ -1,4 +1,4 @@
-import AioslskVerif.Proofs.Search
+import AioslskVerif.Proofs.SearchReport
 /-!
 # C18 — search results reach only live requests; removal and timeouts are exact
 
@@ -8,9 +8,13 @@ with `fixes/C18-remove-request-cancels-timer.patch`, `fixes/C18-timer-unset-task
 
 A *history* is any `List Op` run from `init cfg`: searches of the three kinds, `WishlistInterval` messages (which
 start wishlist rounds), server closing, `remove_request`, search replies with any ticket, `Timer.cancel` /
-`Timer.reschedule` on a registered request, clock jumps of any size (the loop was busy) and loop runs
-(`settle`).  `sleepOps d` is the op list of `asyncio.sleep(d)`.  All interleavings of these at one instant are
-just different op lists.
+`Timer.reschedule` on a registered request, clock jumps of any size (the loop was busy), loop runs (`settle`),
+SINGLE loop iterations (`tick`), and — round 4 — the environment of a request's set-up: `gate` (from now on
+`send_server_messages` suspends / does not), `sendDone tk ok` (the suspended send of the set-up with ticket `tk`
+returns / raises), `cancelCall tk` (the caller suspended in `search*` is cancelled).  `sleepOps d` is the op list of
+`asyncio.sleep(d)`, `stopOps` that of `stop()`.  All interleavings of these at one instant — including "in the loop
+iteration after the sleep of a timer was over, before its task was resumed" and "while the request is between its
+ticket draw and its registration" — are just different op lists; every theorem below is about all of them.
 
 `NoWrap s` (`initial + draws ≤ 2³²−1`) says that the ticket generator has not wrapped: the property is claimed for
 tickets drawn fewer than 2³²−1 draws apart (`C18_ticket_window` is the statement about the generator itself,
@@ -88,14 +92,14 @@ theorem C18_tickets_distinct (cfg : Cfg) (ops : List Op) (hw : NoWrap (run (init
   intro a b hx
   exact (reach_obs cfg ops hw _ hx).2 a b rfl
 
-/-- **Superseded timers never fire.** Whenever a timer callback runs (it reports a removal, or would raise), the
-task that runs it is un-cancelled, is *at that moment* the handle `Timer._task` of a registered request, and that
-request is the one removed. `Timer.cancel` clears the handle and `Timer.reschedule` replaces it by a fresh task
+/-- **Superseded timers never fire.** Whenever a timer callback runs (it reports a removal, or would raise) — in a
+loop run or in a single loop iteration —, the task that runs it is un-cancelled, is *at that moment* the handle
+`Timer._task` of a registered request, and that request is the one removed. `Timer.cancel` clears the handle and `Timer.reschedule` replaces it by a fresh task
 (`C18_rearm_supersedes`), so a cancelled or re-armed timer cannot fire for the old deadline. -/
 theorem C18_superseded_never_fires (cfg : Cfg) (ops : List Op) (op : Op)
     (hw : NoWrap (step (run (init cfg) ops).1 op).1) (t rid tk dl tid : Nat)
     (hx : Obs.removed t rid tk dl tid ∈ (step (run (init cfg) ops).1 op).2) :
-    op = .settle ∧
+    (op = .settle ∨ op = .tick) ∧
     (∃ task ∈ (run (init cfg) ops).1.tasks, task.id = tid ∧ task.rid = rid ∧ task.cancelled = false) ∧
     ∃ r ∈ (run (init cfg) ops).1.requests, r.rid = rid ∧ r.ticket = tk ∧ r.handle = some tid := by
   have hi := reach_inv cfg ops (noWrap_of_step _ _ hw)
@@ -114,7 +118,7 @@ theorem C18_rearm_supersedes (cfg : Cfg) (ops : List Op) (tk n : Nat) (r : Req)
     (∃ r' ∈ s'.requests, r'.rid = r.rid ∧ r'.ticket = tk ∧ r'.handle = some s.nextTask ∧ r'.timeout = some n) ∧
     (∃ t ∈ s'.tasks, t.id = s.nextTask ∧ t.cancelled = false ∧ t.deadline = none ∧ t.timeout = n) := by
   intro s s'
-  have hi : Inv s := reach_inv cfg ops hw
+  have hi : SInv s := reach_inv cfg ops hw
   obtain ⟨hr, htk⟩ := lookup_some hl
   obtain ⟨T, hT⟩ := Option.ne_none_iff_exists'.1 hto
   have hs' : s' = timerStart { (timerCancel s r.rid r.handle) with
@@ -138,7 +142,7 @@ theorem C18_rearm_supersedes (cfg : Cfg) (ops : List Op) (tk n : Nat) (r : Req)
   · intro t ht heq
     have := hi.task_id t ht
     omega
-  · have hin := inv_reschedule hi tk n
+  · have hin := inv_reschedule hi.inv tk n
     rw [hs']
     refine ⟨{ r with handle := some s.nextTask, timeout := some n }, ?_, rfl, htk, ?_, rfl⟩
     · cases hh : r.handle with
@@ -176,10 +180,10 @@ theorem C18_removed_silent (cfg : Cfg) (ops later : List Op) (tk : Nat) (r : Req
     | cons op rest ih => rw [run_cons] at hw; exact noWrap_of_step _ _ (ih _ hw)
   have hi := reach_inv cfg ops (noWrap_of_step _ _ hw1)
   have hg := gone_after_remove hi hl
-  have hi1 := inv_step (.remove tk) hi hw1
+  have hi1 := sinv_step (.remove tk) hi hw1
   refine ⟨by simp [step, hl], ?_, gone_run later _ hi1 hw hg⟩
   intro q hq
-  refine ⟨hg.2 q hq, ?_⟩
+  refine ⟨hg.2.1 q hq, ?_⟩
   intro hqt
   -- a registered request with ticket `tk` would have the rid of `r`
   have h1 := hi1.req_tk q hq
@@ -187,11 +191,11 @@ theorem C18_removed_silent (cfg : Cfg) (ops later : List Op) (tk : Nat) (r : Req
   have hc : (step (run (init cfg) ops).1 (.remove tk)).1.cfg = (run (init cfg) ops).1.cfg := step_cfg _ _
   rw [hc] at h1
   have := (lookup_some hl).2
-  exact hg.2 q hq (by omega)
+  exact hg.2.1 q hq (by omega)
 
 /-- **Timeout: exactly once, not before, not late, on the dot.**
 1. the removals reported in a history are for pairwise different requests (at most once each);
-2. a removal is reported only by a loop run at a time `t` with `deadline ≤ t`, where `deadline` is the one of the
+2. a removal is reported only by a loop run / a loop iteration at a time `t` with `deadline ≤ t`, where `deadline` is the one of the
    task that currently is the Timer's handle (`C18_superseded_never_fires`), and the request is then gone for good
    (`Gone`: not registered in the resulting state; by `gone_run` nothing later concerns it);
 3. after every loop run, whatever is still pending is un-cancelled, started and due strictly later — no request
@@ -203,7 +207,8 @@ theorem C18_timeout_exact_once :
       ((run (init cfg) ops).2.filterMap removedRid).Nodup) ∧
     (∀ (cfg : Cfg) (ops : List Op) (op : Op), NoWrap (step (run (init cfg) ops).1 op).1 →
       ∀ t rid tk dl tid, Obs.removed t rid tk dl tid ∈ (step (run (init cfg) ops).1 op).2 →
-        op = .settle ∧ t = (run (init cfg) ops).1.now ∧ dl ≤ t ∧ Gone rid (step (run (init cfg) ops).1 op).1) ∧
+        (op = .settle ∨ op = .tick) ∧ t = (run (init cfg) ops).1.now ∧ dl ≤ t ∧
+          Gone rid (step (run (init cfg) ops).1 op).1) ∧
     (∀ s : State, Ahead (step s .settle).1) ∧
     (∀ (s : State) (d : Nat), OnTime s →
       (∀ t rid tk dl tid, Obs.removed t rid tk dl tid ∈ (run s (sleepOps d)).2 → t = dl) ∧
@@ -213,8 +218,7 @@ theorem C18_timeout_exact_once :
   have hi := reach_inv cfg ops (noWrap_of_step _ _ hw)
   have hok := step_obs op hi hw _ hx
   obtain ⟨hop, ht, hdl, _, _⟩ := hok
-  subst hop
-  exact ⟨rfl, ht, by omega, gone_after_timeout hi hw hx⟩
+  exact ⟨hop, ht, by omega, gone_after_timeout op hi hw hx⟩
 
 /-- `OnTime` is not an empty hypothesis: the initial state has it, every op that is not a clock jump keeps it,
 and `sleepOps` re-establishes it after its one-second jumps (part 4 above). -/
@@ -329,6 +333,173 @@ theorem C18_report_progress (s : NState) (e : Emission)
     intro x hx
     simpa using (List.mem_filter.1 hx).2
 
+/-! ### Set-ups in progress; single loop iterations
+
+`Op.gate true` makes `send_server_messages` suspend: `search*` and the wishlist job then stop between drawing the
+ticket and registering the request (`State.pending`) until `Op.sendDone tk ok` (the network answers / the send
+raises) or `Op.cancelCall tk` / a cancellation of the wishlist task, and the owner's next step (`Op.tick`, or a
+`settle`).  `Op.tick` is ONE loop iteration: every theorem above is about histories in which any op may sit between
+two single iterations of the loop — before the sleep of a timer is over, after it is over but before the task
+has been resumed (`woken`), after the callback. -/
+
+/-- **Registered only together with the announcement.** In every history every registered request has been
+announced by a `SearchRequestSentEvent` — so a request is never visible in `SearchManager.requests` (and can never
+receive a result, `C18_result_iff_live`) while, or although, nobody was told about it. -/
+theorem C18_registered_announced (cfg : Cfg) (ops : List Op) (hw : NoWrap (run (init cfg) ops).1) :
+    ∀ r ∈ (run (init cfg) ops).1.requests, ∃ t, Obs.sent t r.rid r.ticket ∈ (run (init cfg) ops).2 := by
+  have := run_ind (P := fun s tr => SInv s ∧ ∀ r ∈ s.requests, ∃ t, Obs.sent t r.rid r.ticket ∈ tr) (G := NoWrap)
+    noWrap_of_step
+    (by
+      intro s tr op ⟨hi, ht⟩ hw
+      have hi' := sinv_step op hi hw
+      refine ⟨hi', ?_⟩
+      intro r' hr'
+      have k' := hi'.req_tk r' hr'
+      rw [step_cfg] at k'
+      rcases told_step op hi hw r' hr' with ⟨r, hr, he⟩ | ⟨t, hx⟩
+      · obtain ⟨t, hx⟩ := ht r hr
+        have k := hi.req_tk r hr
+        refine ⟨t, List.mem_append.2 (.inl ?_)⟩
+        rw [← he, show r'.ticket = r.ticket by omega]; exact hx
+      · exact ⟨t, List.mem_append.2 (.inr (by rw [k'.1]; exact hx))⟩)
+    ops (init cfg) [] ⟨sinv_init cfg, by simp [init]⟩ hw
+  simpa using this.2
+
+/-- … hence results and timeout removals are only ever reported for requests that were announced before. -/
+theorem C18_reported_only_if_announced (cfg : Cfg) (ops : List Op) (op : Op)
+    (hw : NoWrap (step (run (init cfg) ops).1 op).1) :
+    (∀ t rid tk, Obs.result t rid tk ∈ (step (run (init cfg) ops).1 op).2 →
+      ∃ t0, Obs.sent t0 rid tk ∈ (run (init cfg) ops).2) ∧
+    (∀ t rid tk dl tid, Obs.removed t rid tk dl tid ∈ (step (run (init cfg) ops).1 op).2 →
+      ∃ t0, Obs.sent t0 rid tk ∈ (run (init cfg) ops).2) := by
+  have hw0 := noWrap_of_step _ _ hw
+  have hi := reach_inv cfg ops hw0
+  have hann := C18_registered_announced cfg ops hw0
+  constructor
+  · intro t rid tk hx
+    obtain ⟨_, _, r, hr, h1, h2⟩ := step_obs op hi hw _ hx
+    obtain ⟨t0, h0⟩ := hann r hr
+    exact ⟨t0, by rw [← h1, ← h2]; exact h0⟩
+  · intro t rid tk dl tid hx
+    obtain ⟨_, _, _, _, r, hr, h1, h2, _⟩ := step_obs op hi hw _ hx
+    obtain ⟨t0, h0⟩ := hann r hr
+    exact ⟨t0, by rw [← h1, ← h2]; exact h0⟩
+
+/-- **A request that is being set up is not registered** (whatever its ticket is used for meanwhile: a reply with it
+finds no request, `remove_request` raises `KeyError`), and its ticket is nobody else's. -/
+theorem C18_setup_not_registered (cfg : Cfg) (ops : List Op) (hw : NoWrap (run (init cfg) ops).1) :
+    (∀ p ∈ (run (init cfg) ops).1.pending, ∀ r ∈ (run (init cfg) ops).1.requests, r.rid ≠ p.rid ∧ r.ticket ≠ p.ticket) ∧
+    ∀ p ∈ (run (init cfg) ops).1.pending, ∀ q ∈ (run (init cfg) ops).1.pending, p.ticket = q.ticket → p = q := by
+  have hi := reach_inv cfg ops hw
+  constructor
+  · intro p hp r hr
+    have h1 := hi.pinv.pend_fresh p hp r hr
+    have h2 := hi.pinv.pend_tk p hp
+    have h3 := hi.req_tk r hr
+    exact ⟨h1, by omega⟩
+  · intro p hp q hq he
+    have h2 := hi.pinv.pend_tk p hp
+    have h3 := hi.pinv.pend_tk q hq
+    exact pairwise_setup_inj hi.pinv.pend_nodup p hp q hq (by omega)
+
+/-- **A set-up that fails, or whose owner is cancelled, leaves nothing behind.** If the send of a set-up raised, or
+its caller was cancelled while suspended in it (`outcome = some false`), then after the owner's next step — one
+loop iteration, or a loop run — the request object does not exist anywhere: not registered, not pending, and no
+observation of any continuation (sent, result, removal, error) ever concerns it. -/
+theorem C18_failed_setup_leaves_nothing (cfg : Cfg) (ops later : List Op) (op : Op) (hop : op = .tick ∨ op = .settle)
+    (p : Setup) (hp : p ∈ (run (init cfg) ops).1.pending) (ho : p.outcome = some false)
+    (hw : NoWrap (run (step (run (init cfg) ops).1 op).1 later).1) :
+    Gone p.rid (step (run (init cfg) ops).1 op).1 ∧
+    ∀ x ∈ (run (step (run (init cfg) ops).1 op).1 later).2, obsRid x ≠ some p.rid := by
+  have hw1 : NoWrap (step (run (init cfg) ops).1 op).1 := by
+    generalize (step (run (init cfg) ops).1 op).1 = s1 at hw
+    induction later generalizing s1 with
+    | nil => simpa [run_nil] using hw
+    | cons o rest ih => rw [run_cons] at hw; exact noWrap_of_step _ _ (ih _ hw)
+  have hi := reach_inv cfg ops (noWrap_of_step _ _ hw1)
+  have hg : Gone p.rid (step (run (init cfg) ops).1 op).1 := by
+    rcases hop with rfl | rfl
+    · exact tick_failed hi hw1 hp ho
+    · exact settle_failed hi hw1 hp ho
+  exact ⟨hg, gone_run later _ (sinv_step op hi hw1) hw hg⟩
+
+/-- `Op.cancelCall tk` (the caller suspended in `search*` is cancelled) gives the set-up that outcome, whether or not
+the network has answered meanwhile. -/
+theorem C18_cancelled_call_fails (s : State) (tk : Nat) (p : Setup)
+    (hf : s.pending.find? (fun p => p.ticket = tk && p.kind != .wishlist) = some p) :
+    ∃ p' ∈ (step s (.cancelCall tk)).1.pending, p'.rid = p.rid ∧ p'.outcome = some false := by
+  have hpm : p ∈ s.pending := List.mem_of_find?_eq_some hf
+  simp only [step, hf, setOutcome]
+  exact ⟨{ p with outcome := some false }, List.mem_map.2 ⟨p, hpm, by simp⟩, rfl, rfl⟩
+
+/-- **Cancelling the wishlist task in the middle of a round leaves nothing behind** (a `WishlistInterval` message,
+the server connection closing, `stop()` — `stopOps` ends with `serverClosing`): the request that was being set up
+is gone at once and for good. -/
+theorem C18_cancelled_round_leaves_nothing (cfg : Cfg) (ops later : List Op) (op : Op)
+    (hop : (∃ n, op = .wlInterval n) ∨ op = .serverClosing)
+    (p : Setup) (hp : p ∈ (run (init cfg) ops).1.pending) (hk : p.kind = .wishlist)
+    (hw : NoWrap (run (step (run (init cfg) ops).1 op).1 later).1) :
+    Gone p.rid (step (run (init cfg) ops).1 op).1 ∧
+    ∀ x ∈ (run (step (run (init cfg) ops).1 op).1 later).2, obsRid x ≠ some p.rid := by
+  have hw1 : NoWrap (step (run (init cfg) ops).1 op).1 := by
+    generalize (step (run (init cfg) ops).1 op).1 = s1 at hw
+    induction later generalizing s1 with
+    | nil => simpa [run_nil] using hw
+    | cons o rest ih => rw [run_cons] at hw; exact noWrap_of_step _ _ (ih _ hw)
+  have hi := reach_inv cfg ops (noWrap_of_step _ _ hw1)
+  have hc := cancelWishlist_gone hi hp hk
+  have hg : Gone p.rid (step (run (init cfg) ops).1 op).1 := by
+    rcases hop with ⟨n, rfl⟩ | rfl
+    · exact hc
+    · exact hc
+  exact ⟨hg, gone_run later _ (sinv_step op hi hw1) hw hg⟩
+
+/-- **A timer task runs its callback only in the iteration after its sleep was over, and only if nobody cancelled it
+in between.** One loop iteration (`tick`) fires exactly the pending tasks that are woken and un-cancelled; a task is
+woken only when its deadline has passed (`PInv.woken_due`), and `Timer.cancel` in any phase — created, sleeping,
+woken — makes it end without the callback (`C18_superseded_never_fires`, `C18_cancel_target_exact`). -/
+theorem C18_tick_fires_woken_only (cfg : Cfg) (ops : List Op) (hw : NoWrap (run (init cfg) ops).1)
+    (t rid tk dl tid : Nat) (hx : Obs.removed t rid tk dl tid ∈ (tick (run (init cfg) ops).1).2) :
+    ∃ task ∈ (run (init cfg) ops).1.tasks, task.id = tid ∧ task.rid = rid ∧ task.cancelled = false ∧
+      task.woken = true ∧ ∃ d, task.deadline = some d ∧ d ≤ (run (init cfg) ops).1.now := by
+  have hi := reach_inv cfg ops hw
+  obtain ⟨t0, ht0, hf, _, hid, hrid⟩ := removed_mem_tick _ hx
+  exact ⟨t0, ht0, hid, hrid, firesNow_cancelled hf, firesNow_woken hf, hi.pinv.woken_due t0 ht0 (firesNow_woken hf)⟩
+
+/-- **A registered request has a Timer exactly when a timeout is in force for it** — whichever way it was set up
+(atomically, or through a suspended send that returned later): `request_timeout > 0` for searches, room and user
+searches; an own `wishlist_request_timeout > 0` for wishlist requests (with `wishlist_request_timeout < 0` the
+server's interval is the timeout: `Search.wishlistTimeout`).  `Op.search .wishlist` is excluded: it is not an API call,
+wishlist requests are made by the wishlist job only. -/
+theorem C18_timer_iff_timeout_in_force (cfg : Cfg) (ops : List Op) (hw : NoWrap (run (init cfg) ops).1)
+    (hs : ∀ op ∈ ops, op ≠ .search .wishlist) :
+    ∀ r ∈ (run (init cfg) ops).1.requests,
+      (r.kind ≠ .wishlist → (r.timeout ≠ none ↔ 0 < cfg.requestTimeout)) ∧
+      (r.kind = .wishlist → 0 < cfg.wishlistTimeout → r.timeout ≠ none) := by
+  have h := reach_allGood false ops (init cfg) (sinv_init cfg) (by intro r hr; simp [init] at hr) hw
+    (fun hb => by cases hb) hs
+  intro r hr
+  have := h r hr
+  rw [run_cfg] at this
+  exact ⟨this.1, this.2.1⟩
+
+/-- **… and that Timer is armed**, unless the user himself cancelled it (`Timer.cancel` through the registry;
+`stop()` is a list of those): in every history without such a call, every registered request that has a Timer has
+a pending, un-cancelled timer task as its handle — no request is ever left registered with a timeout in force and
+nothing that will remove it (with `C18_registered_announced`: nor without having been announced). -/
+theorem C18_armed_unless_cancelled (cfg : Cfg) (ops : List Op) (hw : NoWrap (run (init cfg) ops).1)
+    (hs : ∀ op ∈ ops, op ≠ .search .wishlist) (hnc : ∀ op ∈ ops, ∀ tk, op ≠ .timerCancel tk) :
+    ∀ r ∈ (run (init cfg) ops).1.requests, r.timeout ≠ none →
+      ∃ t ∈ (run (init cfg) ops).1.tasks, r.handle = some t.id ∧ t.rid = r.rid ∧ t.cancelled = false := by
+  have h := reach_allGood true ops (init cfg) (sinv_init cfg) (by intro r hr; simp [init] at hr) hw
+    (fun _ => hnc) hs
+  have hi := reach_inv cfg ops hw
+  intro r hr hto
+  have hne := (h r hr).2.2 rfl hto
+  obtain ⟨id, hid⟩ := Option.ne_none_iff_exists'.1 hne
+  obtain ⟨t, ht, k1, k2, k3⟩ := hi.handle_task r hr id hid
+  exact ⟨t, ht, by rw [hid, k1], k2, k3⟩
+
 /-! ### Non-vacuity: the hypotheses are met by non-trivial reachable states -/
 
 def cfg0 : Cfg := { requestTimeout := 5, wishlistTimeout := -1, storeResults := true, initial := 1, items := 2 }
@@ -350,7 +521,8 @@ example : OnTime (step (run (init cfg0) [.search .network]).1 .settle).1 := by
   obtain ⟨_, d', h1, h2⟩ := settle_ahead _ t ht
   rw [h1] at hd; cases hd; exact Nat.le_of_lt h2
 example : (step (run (init cfg0) [.search .network]).1 .settle).1.tasks =
-    [{ id := 0, rid := 1, ticket := 2, timeout := 5, deadline := some 5, cancelled := false }] := by decide
+    [{ id := 0, rid := 1, ticket := 2, timeout := 5, deadline := some 5, cancelled := false, woken := false }] := by
+  decide
 
 /-- a history of the layered model: two searches time out with three listeners registered; the first report is
 resumed once, the user tries to remove both requests again (by now unknown: `KeyError`), searches again, then all
@@ -369,5 +541,30 @@ example : (nrun (ninit cfg0 3) (ndemo ++ drainOps (nrun (ninit cfg0 3) ndemo).1)
 example : stopOps (run (init cfg0) [.search .network, .settle]).1 = [.timerCancel 2, .serverClosing] := by decide
 example : (run (init cfg0) ([.search .network, .settle] ++ stopOps (run (init cfg0) [.search .network, .settle]).1 ++
     sleepOps 9)).2 = [.sent 0 1 2] := by decide
+
+/-- loop iterations around an expiry: the timer is re-armed in the iteration after its sleep was over (the task is
+woken, not yet resumed) — no removal for the old deadline, one removal at the new one -/
+def idemo : List Op :=
+  [.search .network, .tick, .jump 5, .tick, .timerReschedule 2 3, .tick, .tick, .reply 2] ++ sleepOps 3
+
+example : (run (init cfg0) [.search .network, .tick, .jump 5, .tick]).1.tasks =
+    [{ id := 0, rid := 1, ticket := 2, timeout := 5, deadline := some 5, cancelled := false, woken := true }] := by decide
+example : (run (init cfg0) idemo).2 = [.sent 0 1 2, .result 5 1 2, .removed 8 1 2 8 1] := by decide
+/-- … and without the re-arm the callback runs in the next iteration -/
+example : (run (init cfg0) [.search .network, .tick, .jump 5, .tick, .tick]).2 = [.sent 0 1 2, .removed 5 1 2 5 0] := by
+  decide
+
+/-- set-ups in progress: a search and a wishlist round suspended in their sends; the search is cancelled, the round's
+first item goes out and the second one fails — only ticket 3 is ever registered, announced, and removed -/
+def sdemo : List Op :=
+  [.gate true, .search .user, .wlInterval 4, .tick, .cancelCall 2, .sendDone 3 true, .tick, .reply 2, .reply 3,
+   .sendDone 4 false, .tick, .reply 4] ++ sleepOps 4
+
+example : (run (init cfg0) [.gate true, .search .user, .wlInterval 4, .tick]).1.pending =
+    [{ rid := 1, ticket := 2, kind := .user, outcome := none },
+     { rid := 2, ticket := 3, kind := .wishlist, outcome := none }] := by decide
+example : (run (init cfg0) sdemo).2 = [.sent 0 2 3, .result 0 2 3, .removed 4 2 3 4 0] := by decide
+example : (run (init cfg0) sdemo).1.requests = [] ∧ (run (init cfg0) sdemo).1.pending = [] := by decide
+example : NoWrap (run (init cfg0) sdemo).1 := by unfold NoWrap; decide
 
 end AioslskVerif.C18
